@@ -854,6 +854,13 @@ pub const NESTS: [Nest; 5] =
 /// parser building features programmatically hands over).
 pub const VARIANTS: usize = 6;
 
+/// The stream a variant feeds: the position-less variant stands for a custom parser and
+/// runner, which (like the one in the book) emits no `ParsingFinished` at all - the parser
+/// errors are then only present as the error items themselves.
+pub fn variant_stream(stream: &[Ev], vi: usize) -> Vec<Ev> {
+    stream.iter().filter(|e| vi < NESTS.len() || !matches!(e, Ev::ParsingFinished { .. })).cloned().collect()
+}
+
 pub fn variant(cfg: &Config, vi: usize) -> (Nest, Sources) {
     if vi < NESTS.len() {
         return (NESTS[vi], Sources::from_config(cfg));
@@ -1070,9 +1077,11 @@ pub fn run(a: &ShardArgs) -> serde_json::Value {
             continue;
         };
         done += 1;
+        let full_stream = stream;
         for ni in 0..VARIANTS {
             let (nest, src) = variant(&cfg, ni);
             let nest = &nest;
+            let stream = variant_stream(&full_stream, ni);
             let (obs, seen, at_fin) = run_nest(*nest, &src, &stream);
             evaluations += 1;
             // the inner writer must have seen the input unchanged (plus replays)
@@ -1152,6 +1161,7 @@ pub fn replay(j: &serde_json::Value) -> i32 {
     let case = &cs[idx];
     let Some((cfg, stream)) = build(case) else { return 2 };
     let (nest, src) = variant(&cfg, ni);
+    let stream = variant_stream(&stream, ni);
     println!("{case:?}\nnest {nest:?} (variant {ni})");
     for e in &stream {
         println!("  {}", e.short());
